@@ -8,6 +8,8 @@ import ScyllaVerif.Model.PartitionKey
 import ScyllaVerif.Proofs.Murmur3
 import ScyllaVerif.Proofs.Murmur3Java
 import ScyllaVerif.Proofs.PartitionKey
+import ScyllaVerif.Model.SerializedValuesC03
+import ScyllaVerif.Proofs.SerializedValuesC03
 
 namespace ScyllaVerif.Props.C03
 open ScyllaVerif.Murmur3 ScyllaVerif.PartitionKey
@@ -663,5 +665,233 @@ theorem tokenForPartitionKey_formula (cdc : Bool) (comps : List (List UInt8)) (h
     rw [hf, h1]
     simp only []
     rw [hfin cs (by rw [h2]; rfl)]
+
+/-! ### the pk index table of `deser_prepared_metadata` is the inverse permutation, for every wire order -/
+
+/-- For every duplicate-free list of `u16` marker indexes in the PREPARED frame (any order), the table the driver builds
+is strictly ascending by marker index, has one entry per key column, and each entry's `sequence` is the position at
+which the frame listed that marker (`wire[sequence] = index`: the inverse of the frame's permutation) — and every
+position occurs. -/
+theorem pk_table_inverse_permutation (wire : List Nat) (hnd : wire.Nodup) (hu16 : ∀ ix ∈ wire, ix < 65536) :
+    (pkIndexesOfWire wire).Pairwise (fun a b => a.index < b.index) ∧
+    (pkIndexesOfWire wire).length = wire.length ∧
+    (∀ p ∈ pkIndexesOfWire wire, p.sequence < wire.length ∧ wire[p.sequence]? = some p.index) ∧
+    (∀ s, (hs : s < wire.length) → (⟨wire[s], s⟩ : PkIndex) ∈ pkIndexesOfWire wire) := by
+  have hk : wire.length ≤ 65536 := nodup_bounded_length 65536 wire hnd hu16
+  obtain ⟨hperm, hsorted, _⟩ := pkIndexesOfWire_props wire hk hnd
+  refine ⟨hsorted, pkIndexesOfWire_length wire, ?_, ?_⟩
+  · intro p hp
+    have := mem_wirePairs wire 0 p (by omega) (hperm.mem_iff.mp hp)
+    exact ⟨by omega, by simpa using this.2.2⟩
+  · intro s hs
+    have := wirePairs_mem wire 0 s hs (by omega)
+    rw [Nat.zero_add] at this
+    exact hperm.mem_iff.mpr this
+
+-- non-vacuity / test: frame order (4, 0, 3) gives the table [(0,1), (3,2), (4,0)]
+example : (⟨0, 1⟩ : PkIndex) ∈ pkIndexesOfWire [4, 0, 3] ∧ (⟨4, 0⟩ : PkIndex) ∈ pkIndexesOfWire [4, 0, 3] :=
+  ⟨(pk_table_inverse_permutation [4, 0, 3] (by decide) (by decide)).2.2.2 1 (by decide),
+   (pk_table_inverse_permutation [4, 0, 3] (by decide) (by decide)).2.2.2 0 (by decide)⟩
+
+/-! ### malformed tables: a key (hence a token) exists only for a well-formed table -/
+
+/-- **A key is extracted iff the frame's markers are distinct and all among the bound values.** In every other case
+(a repeated marker, a marker beyond the values) `PartitionKey::new` fails, so no token is ever computed from a
+malformed table. -/
+theorem extract_ok_iff (wire : List Nat) (values : List RawValue) (hv : values.length ≤ 65535) :
+    (∃ key, extract (pkIndexesOfWire wire) values = .ok key) ↔ (wire.Nodup ∧ ∀ ix ∈ wire, ix < values.length) := by
+  constructor
+  · rintro ⟨key, h⟩
+    unfold extract at h
+    obtain ⟨hpw, hall⟩ := extractLoop_ok_imp _ _ _ _ _ _ h
+    have hperm : (pkIndexesOfWire wire).Perm (wirePairs 0 wire) := List.mergeSort_perm _ _
+    have hidx : ((pkIndexesOfWire wire).map (·.index)).Perm wire := by
+      have := hperm.map (·.index)
+      rwa [wirePairs_map_index] at this
+    refine ⟨?_, ?_⟩
+    · apply hidx.nodup_iff.mp
+      have : ((pkIndexesOfWire wire).map (·.index)).Pairwise (· < ·) := by
+        rw [List.pairwise_map]; exact hpw
+      exact this.imp (fun h => Nat.ne_of_lt h)
+    · intro ix hix
+      obtain ⟨p, hp, rfl⟩ := List.mem_map.mp (hidx.mem_iff.mpr hix)
+      have := hall p hp
+      omega
+  · rintro ⟨hnd, hlt⟩
+    exact ⟨_, extract_in_pk_order wire values hnd hlt hv⟩
+
+/-- No token from a malformed table. -/
+theorem token_only_if_wellformed (cdc : Bool) (wire : List Nat) (values : List RawValue) (t : Int64)
+    (hv : values.length ≤ 65535)
+    (h : calculateToken cdc (pkIndexesOfWire wire) values = .ok (some t)) :
+    wire.Nodup ∧ ∀ ix ∈ wire, ix < values.length := by
+  apply (extract_ok_iff wire values hv).mp
+  unfold calculateToken at h
+  split at h
+  · cases h
+  · cases he : extract (pkIndexesOfWire wire) values with
+    | error e => rw [he] at h; cases h
+    | ok key => exact ⟨key, rfl⟩
+
+/-- A marker the frame lists twice (all markers among the bound values): `index - offset` underflows in
+`PartitionKey::new` — a panic in a build with overflow checks (as the harness is built). -/
+theorem extract_duplicate_marker (wire : List Nat) (values : List RawValue) (hdup : ¬ wire.Nodup)
+    (hlt : ∀ ix ∈ wire, ix < values.length) (hv : values.length ≤ 65535) (hk : wire.length ≤ 65536) :
+    extract (pkIndexesOfWire wire) values = .error .panic := by
+  have hperm : (pkIndexesOfWire wire).Perm (wirePairs 0 wire) := List.mergeSort_perm _ _
+  have hidx : ((pkIndexesOfWire wire).map (·.index)).Perm wire := by
+    have := hperm.map (·.index)
+    rwa [wirePairs_map_index] at this
+  unfold extract
+  have := extractLoop_dup_panics values hv (pkIndexesOfWire wire) 0
+    (List.replicate (pkIndexesOfWire wire).length none)
+    (by
+      intro p hp
+      have hm := mem_wirePairs wire 0 p (by omega) (hperm.mem_iff.mp hp)
+      refine ⟨hlt _ (List.mem_of_getElem? hm.2.2), ?_⟩
+      rw [List.length_replicate, pkIndexesOfWire_length]; omega)
+    (Or.inl (by
+      intro hpw
+      apply hdup
+      apply hidx.nodup_iff.mp
+      have : ((pkIndexesOfWire wire).map (·.index)).Pairwise (· < ·) := by
+        rw [List.pairwise_map]; exact hpw
+      exact this.imp (fun h => Nat.ne_of_lt h)))
+  rw [List.drop_zero] at this
+  exact this
+
+example : extract (pkIndexesOfWire [1, 0, 1]) [.value [1], .value [2]] = .error .panic :=
+  extract_duplicate_marker [1, 0, 1] _ (by decide) (by decide) (by decide) (by decide)
+
+/-! ### null / unset key components -/
+
+private theorem encodeChunks_opts (opts : List (Option (List UInt8)))
+    (hsmall : 2 ≤ (opts.filterMap id).length → ∀ c ∈ opts.filterMap id, c.length ≤ 65535) :
+    ∃ cs, encodeChunks opts = .ok cs ∧ cs.flatten = encodeKey (opts.filterMap id) := by
+  unfold encodeChunks
+  generalize opts.filterMap id = comps at *
+  match comps, hsmall with
+  | [], _ => exact ⟨[], rfl, rfl⟩
+  | [v], _ => exact ⟨[v], rfl, by simp [encodeKey]⟩
+  | v :: w :: rest, hsmall =>
+    obtain ⟨cs, h1, h2⟩ := compositeChunks_ok (v :: w :: rest) (hsmall (by simp))
+    exact ⟨cs, h1, by rw [h2]; rfl⟩
+
+/-- **What the driver does with null / unset key components** (the server rejects such requests): they are skipped,
+and the token is computed from the remaining components as if they were the whole key — the single remaining
+component raw, two or more in the composite framing, none at all as the empty key. No hypothesis on which components
+are bound. -/
+theorem token_formula_nulls (cdc : Bool) (wire : List Nat) (values : List RawValue)
+    (hne : wire ≠ []) (hnd : wire.Nodup) (hlt : ∀ ix ∈ wire, ix < values.length) (hv : values.length ≤ 65535)
+    (hsmall : 2 ≤ ((keyOf wire values).filterMap id).length →
+      ∀ c ∈ (keyOf wire values).filterMap id, c.length ≤ 65535) :
+    calculateToken cdc (pkIndexesOfWire wire) values =
+      .ok (some (if cdc then cdcRust (encodeKey ((keyOf wire values).filterMap id))
+                 else murmur3Spec (encodeKey ((keyOf wire values).filterMap id)))) := by
+  have hpk : (pkIndexesOfWire wire).isEmpty = false := by
+    have : (pkIndexesOfWire wire).length = wire.length := pkIndexesOfWire_length wire
+    cases hw : pkIndexesOfWire wire with
+    | nil => rw [hw] at this; exact absurd (List.eq_nil_of_length_eq_zero this.symm) hne
+    | cons _ _ => rfl
+  obtain ⟨cs, hcs, hfl⟩ := encodeChunks_opts (keyOf wire values) hsmall
+  unfold calculateToken
+  rw [hpk, extract_in_pk_order wire values hnd hlt hv]
+  simp only [Bool.false_eq_true, if_false, hcs]
+  unfold hashChunks
+  cases cdc with
+  | false => simp only [Bool.false_eq_true, if_false]; rw [chunking_independent, hfl]
+  | true => simp only [if_true]; rw [cdc_chunking_independent, hfl]
+
+-- non-vacuity: key = (marker 1, marker 0) with marker 1 bound to NULL: hashed as the single component of marker 0
+example : calculateToken false (pkIndexesOfWire [1, 0]) [.value [0xaa], .null] = .ok (some (murmur3Spec [0xaa])) := by
+  rw [token_formula_nulls false [1, 0] _ (by decide) (by decide) (by decide) (by decide) (by decide)]
+  rfl
+
+/-! ### the serialized buffer: `SerializedValuesIterator::nth` -/
+
+open ScyllaVerif.SerializedValuesC03 ScyllaVerif.Proofs.SerializedValuesC03 in
+/-- `values_iter.nth(n)` on the buffer `SerializedValues` holds is indexing into the bound values — NULL and
+"not set" cells are items like any other — and leaves the iterator at the encoding of the rest. -/
+theorem nth_is_indexing (vs : List RawValue) (hvs : ∀ v ∈ vs, cellOk v) (n : Nat) :
+    nth n (encodeValues vs) =
+      match vs.drop n with
+      | [] => .done
+      | v :: rest => .item v (encodeValues rest) :=
+  nth_encode vs hvs n
+
+open ScyllaVerif.SerializedValuesC03 ScyllaVerif.Proofs.SerializedValuesC03 in
+/-- `PartitionKey::new` walking the serialized buffer with `nth` computes what the list-level model computes, for every
+pk index table and all bound values (each at most `i32::MAX` bytes): all extraction theorems above hold of the
+buffer-level loop. -/
+theorem extract_on_buffer (pk : List PkIndex) (values : List RawValue) (hvs : ∀ v ∈ values, cellOk v) :
+    extractBuf pk values.length (encodeValues values) = extract pk values :=
+  extractBuf_eq pk values hvs
+
+open ScyllaVerif.SerializedValuesC03 in
+example : nth 1 (encodeValues [.value [7], .null, .unset, .value []]) =
+      .item .null (encodeValues [.unset, .value []]) ∧
+    nth 3 (encodeValues [.value [7], .null, .unset, .value []]) = .item (.value []) [] ∧
+    nth 4 (encodeValues [.value [7], .null, .unset, .value []]) = .done ∧
+    nth 0 [0, 0, 0, 9, 1] = .panic := by decide
+
+/-! ### `ClusterState::compute_token`: the path that bypasses `PreparedStatement` -/
+
+theorem clusterComputeToken_unknown_table (schema : TableSnapshot) (ks table : List UInt8) (key : List RawValue)
+    (h : schema.lookup ks = none ∨ ∃ tables, schema.lookup ks = some tables ∧ tables.lookup table = none) :
+    clusterComputeToken schema ks table key = .error .unknownTable := by
+  unfold clusterComputeToken
+  rcases h with h | ⟨tables, h1, h2⟩
+  · rw [h]
+  · rw [h1]; simp only []; rw [h2]
+
+/-- For a table in the snapshot and a fully bound key given in partition-key order (one value per key column),
+`compute_token` returns the token of the partitioner the table's metadata names — the same formula as the prepared
+statement path. -/
+theorem clusterComputeToken_formula (schema : TableSnapshot) (ks table : List UInt8) (tables : List (List UInt8 × TableInfo))
+    (t : TableInfo) (comps : List (List UInt8))
+    (hks : schema.lookup ks = some tables) (ht : tables.lookup table = some t)
+    (hcount : comps.length = t.pkColumns) (hne : comps ≠ []) (hmax : comps.length ≤ 65535)
+    (hsmall : 2 ≤ comps.length → ∀ c ∈ comps, c.length ≤ 65535) :
+    clusterComputeToken schema ks table (comps.map .value) =
+      .ok (if selectPartitioner t.partitioner = .cdc then cdcRust (encodeKey comps)
+           else murmur3Spec (encodeKey comps)) := by
+  unfold clusterComputeToken
+  rw [hks]; simp only []; rw [ht]; simp only []
+  rw [if_neg (by simp only [List.length_map]; omega)]
+  rw [tokenForPartitionKey_formula _ comps hne hsmall]
+  simp only []
+  cases selectPartitioner t.partitioner <;> simp
+
+/-- **The two token paths agree**: for the same table, partitioner and fully bound key, `PreparedStatement::calculate_token`
+(markers in any order) and `ClusterState::compute_token` (key in partition-key order) return the same token. -/
+theorem cluster_token_agrees_with_prepared (schema : TableSnapshot) (ks table : List UInt8)
+    (tables : List (List UInt8 × TableInfo)) (t : TableInfo)
+    (wire : List Nat) (values : List RawValue) (comps : List (List UInt8))
+    (hks : schema.lookup ks = some tables) (ht : tables.lookup table = some t)
+    (hcount : comps.length = t.pkColumns)
+    (hne : wire ≠ []) (hnd : wire.Nodup) (hlt : ∀ ix ∈ wire, ix < values.length) (hv : values.length ≤ 65535)
+    (hbound : keyOf wire values = comps.map some)
+    (hsmall : 2 ≤ comps.length → ∀ c ∈ comps, c.length ≤ 65535) :
+    ∃ tok, calculateToken (selectPartitioner t.partitioner == .cdc) (pkIndexesOfWire wire) values = .ok (some tok) ∧
+      clusterComputeToken schema ks table (comps.map .value) = .ok tok := by
+  have hwl : wire.length = comps.length := by
+    have := congrArg List.length hbound
+    simpa [keyOf] using this
+  have hcne : comps ≠ [] := by
+    intro h; rw [h] at hwl; exact hne (List.eq_nil_of_length_eq_zero hwl)
+  have hmax : comps.length ≤ 65535 := by
+    have := nodup_bounded_length values.length wire hnd hlt
+    omega
+  refine ⟨_, token_formula _ wire values comps hne hnd hlt hv hbound hsmall, ?_⟩
+  rw [clusterComputeToken_formula schema ks table tables t comps hks ht hcount hcne hmax hsmall]
+  cases selectPartitioner t.partitioner <;> simp
+
+-- non-vacuity: ks.comp with a two-column key; statement markers (b, a); both paths give the composite token
+example :
+    clusterComputeToken [([1], [([2], ⟨2, none⟩)])] [1] [2] [.value [0xa1], .value [0xb2]] =
+      .ok (murmur3Spec [0, 1, 0xa1, 0, 0, 1, 0xb2, 0]) := by
+  have := clusterComputeToken_formula [([1], [([2], ⟨2, none⟩)])] [1] [2] [([2], ⟨2, none⟩)] ⟨2, none⟩
+    [[0xa1], [0xb2]] rfl rfl (by decide) (by decide) (by decide) (by decide)
+  simpa [selectPartitioner, encodeKey, be16] using this
 
 end ScyllaVerif.Props.C03
